@@ -631,6 +631,8 @@ def compute_output_geobox(
         and shape is None
         and anchor == "default"
         and isinstance(gbox, GeoBox)
+        # rotated source is returned as is for the all defaults request only
+        and (gbox.axis_aligned or (resolution == "auto" and not tight))
     ):
         return gbox
 
